@@ -886,13 +886,13 @@ impl SnapshotFile {
         B: DecryptReadBackend,
         F: FnMut(&Self) -> bool,
     {
-        Ok(be
+        // a snapshot file which cannot be read is an error (as it is when listing all snapshots):
+        // skipping it would e.g. let "latest" silently resolve to an older snapshot
+        let snaps: Vec<_> = be
             .stream_all::<Self>(p)?
             .into_iter()
-            .map(|item| item.inspect_err(|err| warn!("Error reading snapshot: {err}")))
-            .filter_map(Result::ok)
-            .map(Self::set_id)
-            .filter(filter))
+            .collect::<RusticResult<_>>()?;
+        Ok(snaps.into_iter().map(Self::set_id).filter(filter))
     }
 
     // TODO: add documentation!
